@@ -128,6 +128,10 @@ func (r *Run) Close() {
 var props = map[string]func(r *Run, rng *RNG){}
 
 func main() {
+	if len(os.Args) > 1 && os.Args[1] == "c02worker" {
+		c02Worker()
+		return
+	}
 	tier := flag.String("tier", "quick", "quick|thorough")
 	seed := flag.Uint64("seed", 1, "seed")
 	out := flag.String("out", "", "output directory")
